@@ -67,8 +67,9 @@ Definition divergences : list (list Z) := [
   [1; 0; 9; 3]; [1; 0; 10; 3];
   (* reserved (local): the application may send WINDOW_UPDATE; DATA answered with a stream error *)
   [2; 0; 4; 3]; [2; 0; 9; 3];
-  (* half-closed (remote): END_STREAM only follows an accepted HEADERS / DATA *)
-  [4; 0; 11; 2];
+  (* half-closed (remote): END_STREAM only follows an accepted HEADERS / DATA; 1xx headers: connection error PROTOCOL_ERROR instead of
+     a stream error STREAM_CLOSED (pinned by test_state_machines.py::test_state_transitions) *)
+  [4; 0; 11; 2]; [4; 0; 14; 3];
   (* DATA on any closed stream is answered with RST_STREAM(STREAM_CLOSED) and the credit returned (documented in _handle_data_on_closed_stream) *)
   (* closed after we sent END_STREAM last: PUSH_PROMISE gives PROTOCOL_ERROR instead of STREAM_CLOSED; END_STREAM internal *)
   [6; 1; 7; 3]; [6; 1; 9; 1]; [6; 1; 11; 2];
